@@ -57,7 +57,9 @@ instance : Repr U32 := ⟨fun x _ => repr x.val⟩
 /-! ## optional.go — constructors (`String`, `Int`, `Int32`, `UInt32`, `Int64`, `UInt64`,
 `Bool`, `FileMode`) and `Get`.  The argument is `interface{}`; the model's argument type
 enumerates the dynamic types the type switch distinguishes, `other` standing for every
-dynamic type that falls to `default: return nil`. -/
+dynamic type that falls to `default: return nil`, and `nil` for the untyped nil interface value
+(the literal `X(nil)`): no `case` of a type switch matches it — there is no `case nil:` in any of
+the eight switches — so it too takes the `default` arm. -/
 
 /-- the three-way switch shared by `String`, `Int`, `Int32`, `UInt32`, `Bool`:
     `T`, `*T`, `*OptionalT`, default -/
@@ -66,6 +68,7 @@ inductive Arg (α : Type) where
   | ptr (p : Option α)
   | opt (p : Option α)
   | other
+  | nil
 deriving DecidableEq, Repr
 
 def optOf {α : Type} : Arg α → Option α
@@ -75,6 +78,7 @@ def optOf {α : Type} : Arg α → Option α
   | .opt none => none
   | .opt (some v) => some v
   | .other => none
+  | .nil => none
 
 /-- `String(v)` -/
 def optString : Arg Str → Option Str := optOf
@@ -90,7 +94,7 @@ def optBool : Arg Bool → Option Bool := optOf
 inductive Int64Arg where
   | int (v : I64) | uint (v : U64) | uint64 (v : U64) | int64 (v : I64)
   | pInt64 (p : Option I64) | pUint64 (p : Option U64) | opt (p : Option I64)
-  | other
+  | other | nil
 deriving DecidableEq, Repr
 
 /-- `Int64(v)`: the unsigned inputs are converted with `int64(o)` (bit pattern kept). -/
@@ -106,11 +110,12 @@ def optInt64 : Int64Arg → Option I64
   | .opt none => none
   | .opt (some v) => some v
   | .other => none
+  | .nil => none
 
 inductive UInt64Arg where
   | int (v : I64) | uint (v : U64) | int64 (v : I64) | uint64 (v : U64)
   | pInt64 (p : Option I64) | pUint64 (p : Option U64) | opt (p : Option U64)
-  | other
+  | other | nil
 deriving DecidableEq, Repr
 
 /-- `UInt64(v)`: the signed inputs are converted with `uint64(o)` (bit pattern kept). -/
@@ -126,10 +131,11 @@ def optUInt64 : UInt64Arg → Option U64
   | .opt none => none
   | .opt (some v) => some v
   | .other => none
+  | .nil => none
 
 inductive FileModeArg where
   | pMode (p : Option U32) | mode (v : U32) | opt (p : Option U32) | u32 (v : U32)
-  | other
+  | other | nil
 deriving DecidableEq, Repr
 
 /-- `FileMode(v)`; `os.FileMode` is a `uint32`, every cast involved is the identity. -/
@@ -141,6 +147,7 @@ def optFileMode : FileModeArg → Option U32
   | .opt (some v) => some v
   | .u32 v => some v
   | .other => none
+  | .nil => none
 
 /-- `(*OptionalX).Get()`: nil ↦ nil, otherwise a pointer to a *copy* of the value. -/
 def optGet {α : Type} : Option α → Option α
